@@ -311,3 +311,80 @@ def parse_reply_item(item):
     g, rest = take(item)
     p, rest = take(rest)
     return g, p
+
+
+# ---------------------------------------------------------------------------------------------
+# generator-side (unprepared) grammars -> wire, for the `prepare` correspondence
+
+class TupleWire:
+    """wire form of the harness's own expression tuples (before preparation)"""
+
+    def __init__(self, names, bm=False):
+        self.index = {n: i for i, n in enumerate(names)}
+        self.rx = []
+        self.rx_index = {}
+        self.bm = bm
+
+    def regex_id(self, pattern, ic):
+        key = (pattern, ic)
+        if key not in self.rx_index:
+            self.rx_index[key] = len(self.rx)
+            self.rx.append(rx_wire(pattern, ic))
+        return self.rx_index[key]
+
+    def expr(self, e):
+        k = e[0]
+        x = self.expr
+        if k == 'str':
+            return '(str 0' + ''.join(f' {c}' for c in codes(e[1])) + ')'
+        if k == 'ci':
+            return f'(regex 0 {self.regex_id(re.escape(e[1]), True)})'
+        if k == 'rx':
+            return f'(regex 0 {self.regex_id(e[1], False)})'
+        if k == 'byte':
+            return f'(byte 0 {e[1]})'
+        if k == 'ref':
+            return f'(ref {self.index[e[1]]})'
+        if k == 'seq':
+            return '(seq' + ''.join(' ' + x(c) for c in e[1]) + ')'
+        if k == 'dis':
+            return f'(discard {1 if e[1] else 0} {x(e[2])} {x(e[3])})'
+        if k == 'alt':
+            # `a | b | c` is flattened by the translator
+            flat = []
+            for c in e[1]:
+                flat += list(c[1]) if c[0] == 'alt' else [c]
+            return '(choice' + ''.join(' ' + x(c) for c in flat) + ')'
+        if k == 'opt':
+            return f'(opt {x(e[1])})'
+        if k == 'rep':
+            return f'(list {e[1]} {"inf" if e[2] is None else e[2]} {x(e[3])})'
+        if k == 'sep':
+            d, t, em, rq = e[1]
+            b = lambda v: '1' if v else '0'
+            return f'(sep {b(d)} {b(t)} {b(em)} {b(rq)} {x(e[2])} {x(e[3])})'
+        if k == 'exp':
+            return f'(expect {x(e[1])})'
+        if k == 'not':
+            return f'(expectnot {x(e[1])})'
+        if k == 'skip':
+            return '(skip' + ''.join(' ' + x(c) for c in e[1]) + ')'
+        if k == 'long':
+            return '(longest' + ''.join(' ' + x(c) for c in e[1]) + ')'
+        if k == 'bt':
+            return f'(backtrack {e[1]})'
+        if k == 'fail':
+            return 'fail'
+        if k == 'py':
+            src = e[1]
+            if src == 'None':
+                return '(py N)'
+            if src in ('True', 'False'):
+                return f'(py {src[0]})'
+            return f'(py (i {int(src)}))'
+        raise Unsupported(k)
+
+
+def inline_rx(text, rx_table):
+    """replace regex ids by their content so that two numberings can be compared"""
+    return re.sub(r'\(regex ([01]) (\d+)\)', lambda m: f'(regex {m.group(1)} {rx_table[int(m.group(2))]})', text)
